@@ -206,7 +206,7 @@ def jobs(tier, seed, scale=1.0):
     generated session; 'random' jobs run one session with a drawn schedule."""
     out = []
     if tier == "quick":
-        nsweep, nrandom = 60, 20000
+        nsweep, nrandom = 40, 16000
     else:
         nsweep, nrandom = 1500, 1500000
     nsweep = max(1, int(nsweep * scale))
